@@ -437,12 +437,16 @@ def parse_model_emit(text):
     return out
 
 
-def compare_model_emit(fam, c, real, text):
+def compare_model_emit(fam, c, real, text, parsed=None):
     """the Lean model of do_finalize (complete item list) against the items read back from the real Instance."""
     model = parse_model_emit(text)
     got = dict(real.get("emit") or {})
     for k in getattr(fam, "EMIT_ONLY_REAL", ()):
         got.pop(k, None)
+    if hasattr(fam, "emit_skip"):
+        for k in fam.emit_skip(c, real, parsed):
+            got.pop(k, None)
+            model.pop(k, None)
     d = E.diff_dicts(model, got, "emitted items (model vs real)")
     return "; ".join(d[:3]) if d else None
 
@@ -1354,7 +1358,7 @@ def run_case(fam, c, model_line):
             model = fam.parse(c, model_line)
             dis = fam.compare(c, real, model)
             if dis is None and model_emit and real["status"] == "ok" and real.get("emit") is not None:
-                dis = compare_model_emit(fam, c, real, model_emit)
+                dis = compare_model_emit(fam, c, real, model_emit, model)
                 rec["emit_compared"] = True
         except Exception as e:
             dis = "unparsable model answer %r (%r)" % (model_line[:80], e)
@@ -2046,6 +2050,13 @@ class Intel:
                 return "CLK%d_PHASE_SHIFT real=%s model=%s" % (i, ps, mps)
         return None
 
+    def emit_skip(self, c, real, model):
+        """an exactly tied optimum written with other factors (accepted by compare): the per-output multiplier/divider
+        items then legitimately differ from the model's (the oracle still checks them against the real configuration)."""
+        if model and (real["m"] != model["m"] or real["divs"] != model["divs"]):
+            return ["p_CLK%d_%s" % (n, x) for n in range(len(c["outs"])) for x in ("DIVIDE_BY", "MULTIPLY_BY")]
+        return []
+
     def key(self, c, m, divs):
         k = F(1)
         for (f, p, mg), dv in zip(c["outs"], divs):
@@ -2699,8 +2710,6 @@ class Gw5a:
         fl = Flags()
         ex = self.exact_search(c, fl)
         first = ex[1] if ex[0] == "ok" else None
-        if not fl.borderline and ex[0] != {"ok": "ok", "rejected": "rejected", "crash": "crash"}.get(real["status"]):
-            fl._flag("exact search %s vs real %s" % (ex[0], real["status"]))      # left to the robust checks below
         if real["status"] == "ok":
             idiv, fdiv, mdiv = real["idiv"], real["fdiv"], real["mdiv"]
             if not (1 <= idiv <= 64 and 1 <= fdiv <= 64 and 2 <= mdiv <= 128):
